@@ -229,7 +229,7 @@ pub fn drive_c17_stream(out: &mut dyn std::io::Write, which: &str) {
 macro_rules! big_one {
     ($out:ident, $T:ty, $alg:expr, $prefix:expr, $extra:expr, $counter:expr, $nl:expr, $chainbytes:expr, $first:expr, $ev:expr, $tag:expr) => {{
         let prefix: usize = $prefix;
-        let big: usize = (1usize << 32) + $extra;
+        let big: usize = (1usize << 32) + 1024 + $extra; // more than 2^26 whole blocks of every block size in one call
         let zeros: Vec<u8> = vec![0u8; big]; // never written: backed by the kernel's shared zero page
         let pre: Vec<u8> = (0..prefix).map(|i| (i * 3 + 1) as u8).collect();
         let more: Vec<u8> = (0..77usize).map(|i| (i * 29 + 1) as u8).collect();
